@@ -265,24 +265,24 @@ private theorem applyCall_view (s s' : Sys) (d : Dir) (enc : Bytes) (order : Lis
       simp only [hd, Option.some.injEq] at h
       subst h
       refine ⟨?_, ?_, ?_, ?_⟩
-      · apply view_ext <;> simp [relayView, rstep_initWin, rstep_maxFrame, hp_encodeBlock_same]
-      · simp [hp_encodeBlock_same]
+      · apply view_ext <;> simp [relayView, rstep_initWin, rstep_maxFrame]
+      · simp
       · simp
       · apply view_ext <;> simp [relayView, RecvView.afterCall]
   | header sid fields es prio =>
     simp only [applyCall, Option.some.injEq] at h
     subst h
     refine ⟨?_, ?_, ?_, ?_⟩
-    · apply view_ext <;> simp [relayView, rstep_initWin, rstep_maxFrame, hp_encodeBlock_same]
-    · simp [hp_encodeBlock_same]
+    · apply view_ext <;> simp [relayView, rstep_initWin, rstep_maxFrame]
+    · simp
     · simp
     · apply view_ext <;> simp [relayView, RecvView.afterCall]
   | pushPromise sid promised fields =>
     simp only [applyCall, Option.some.injEq] at h
     subst h
     refine ⟨?_, ?_, ?_, ?_⟩
-    · apply view_ext <;> simp [relayView, rstep_initWin, rstep_maxFrame, hp_encodeBlock_same]
-    · simp [hp_encodeBlock_same]
+    · apply view_ext <;> simp [relayView, rstep_initWin, rstep_maxFrame]
+    · simp
     · simp
     · apply view_ext <;> simp [relayView, RecvView.afterCall]
   | data sid flow payload es =>
